@@ -29,7 +29,7 @@ func (c01) Describe() engine.Info {
 		Rule: "scenario = random register/flag state + generated program of 1..40 tested instructions (all 243 lock-step base opcodes and all 256 CB opcodes; pointers confined to plain-memory windows: WRAM, echo, HRAM, VRAM/OAM with LCD off, ROM) executed from WRAM or ROM, with 0-4 interrupt lines raised at arbitrary cycle offsets (IE=0). " +
 			"Directed sweep chunks (class sweep) place every case of a finite operand space at an instruction boundary of one long run. Oracle: reference SM83, compared at every instruction boundary (registers, F low nibble, written memory, IF/IE) plus a whole plain-memory comparison every 48 instructions. " +
 			"Signature = (opcode, interrupt line rose mid-instruction); all are non-trivial (operands are never all-default)." +
-			" Control-flow sweeps (class sweep, families jr*/jpcall*/ret*/rst*/jphl/ldsphl) place one instruction per case and reset PC at every boundary. Class banked-code: the program switches the ROM bank it executes from (MBC1 mode-1 low window; high window of MBC1/3/5), the same addresses run under alternating pages. Every bus write of the real CPU (hook H4) is compared with the documented writes of the instruction.",
+			" Control-flow sweeps (class sweep, families jr*/jpcall*/ret*/rst*/jphl/ldsphl) place one instruction per case and reset PC at every boundary. Class banked-code: the program switches the ROM bank it executes from (MBC1 mode-1 low window; high window of MBC1/3/5), the same addresses run under alternating pages. Every bus write of the real CPU (hook H4) is compared with the documented writes of the instruction. Class oam-pointer-lcd-on: LCD on, stores / 16-bit INC/DEC / PUSH through pointers in FE00-FEFF in every LCD mode (registers, flags, PC and bus stores judged; OAM contents are C17's). Programs occasionally load the verdict register patterns of the repository's test ROMs and execute marker self-loads (LD B,B ...).",
 		Assumptions: []string{
 			"HALT and STOP are excluded here (HALT is C05); undefined opcodes never appear in generated programs",
 			"the operand value space is generated input; the simulator contributes history and interference only",
